@@ -220,6 +220,11 @@ func traverseRegularProperty(property path.Property, t traversal, fetchNodes boo
 	}
 	binding := fmt.Sprintf("%s_%s", t.variable, idx)
 
+	// sibling alternatives of the path share the traversal they start from: never append into its backing arrays
+	t.rego = append([]string{}, t.rego...)
+	t.pathVariables = append([]string{}, t.pathVariables...)
+	t.paths = append([]string{}, t.paths...)
+
 	if len(t.pathVariables) == 0 {
 		// If this is the first element in the path, we start computing the path from the previous variable passed
 		// to the path generator, usually a classTarget.
@@ -268,6 +273,11 @@ func traverseCustomProperty(property path.Property, t traversal, fetchNodes bool
 		idx = fmt.Sprintf("%s_%d", idx, t.counter)
 	}
 	binding := fmt.Sprintf("%s_%s", t.variable, idx)
+
+	// sibling alternatives of the path share the traversal they start from: never append into its backing arrays
+	t.rego = append([]string{}, t.rego...)
+	t.pathVariables = append([]string{}, t.pathVariables...)
+	t.paths = append([]string{}, t.paths...)
 
 	if len(t.pathVariables) == 0 {
 		// If this is the first element in the path, we start computing the path from the previous variable passed
